@@ -30,6 +30,10 @@ class Check:
 
     def _add(self, status, rule, desc, site, what, fn=None, **kw):
         key = f"{self.pid}|{rule}|{fn or ''}|{desc}"
+        for prev in self.obligations:
+            if prev["key"] == key and prev["status"] == status:
+                prev.setdefault("also_at", []).append(site)
+                return prev
         o = {"rule": rule, "key": key, "site": site, "what": what, "status": status}
         o.update(kw)
         self.obligations.append(o)
